@@ -422,14 +422,30 @@ def classify(prog, call, n, lags, leads, F, P, twin_fn):
         T = twin_fn()
         if T is not None and all_finite(T) and agree(F, T, libm, iterated):
             return ('convergence-variables-zero-based', what)   # explained entirely by the shifted convergence rows
+        if T is not None and (not all_finite(T) or T['tag'] == 'SolutionError' or 'E' in T['status']):
+            # with the convergence rows the compiled loop really reads, the solve leaves the finite regime (e.g. it
+            # "converges" early, moves on to the next period and overflows there): outside the property
+            return ('skip', 'non-finite-with-shifted-rows')
         if T is not None and libm and boundary_sensitive(prog, call, twin_fn, P):
             return ('skip', 'libm-boundary')
+        if T is not None and libm and same_control(F, T) and perturbation_sensitive(T, twin_fn):
+            return ('skip', 'libm-ill-conditioned')
         if defects:   # a literal/integer defect changes values, which may also change the pass at which the loop stops
             return (defects[0], what)
         return ('engine-mismatch:' + call['call'], what)
     if defects:
         return (defects[0], what)
     return ('engine-mismatch:evaluate', what)
+
+
+def perturbation_sensitive(base, twin_fn):
+    """Same control flow but values further apart than the tolerance: is the iteration itself ill-conditioned
+    (rounding differences of libm amplified pass after pass)?  Decided on the Python class alone: perturb every
+    input by one part in 1e15 and see whether its own result moves by more than the tolerance."""
+    alt = twin_fn('perturb')
+    if alt is None or not same_control(alt, base):
+        return True
+    return not (rel_close(alt, base, 1e-10) or abs_close(alt, base, 1e-10))
 
 
 def boundary_sensitive(prog, call, twin_fn, P):
@@ -748,7 +764,11 @@ def process_program(job):
                 key = json.dumps(c or call, sort_keys=True)
                 if key not in cache:
                     try:
-                        cache[key] = twin_call(P, n, data, c or call)
+                        if c == 'perturb':
+                            d2 = {k: [bits(unbits(b) * (1 + 1e-15)) for b in row] for k, row in data.items()}
+                            cache[key] = twin_call(P, n, d2, call)
+                        else:
+                            cache[key] = twin_call(P, n, data, c or call)
                     except Exception:  # noqa: BLE001
                         cache[key] = None
                 return cache[key]
@@ -949,7 +969,11 @@ def replay(ctx, rep, case):
         Fo, Po = run_call(F, n, data, call), run_call(P, n, data, call)
         print('  fortran:', obs_str(Fo)[:300])
         print('  python :', obs_str(Po)[:300])
-        v = classify(prog, call, n, P.LAGS, P.LEADS, Fo, Po, lambda c=None: twin_call(P, n, data, c or call))
+        def twin_fn(c=None):
+            if c == 'perturb':
+                return twin_call(P, n, {k: [bits(unbits(b) * (1 + 1e-15)) for b in row] for k, row in data.items()}, call)
+            return twin_call(P, n, data, c or call)
+        v = classify(prog, call, n, P.LAGS, P.LEADS, Fo, Po, twin_fn)
         if v is not None and v[0] != 'skip':
             rep.violate(v[0], v[1], case)
     finally:
